@@ -46,6 +46,11 @@ enum Dev {
 	DeclineMethod(u16),
 	DeclineRecord(u16),
 	NoCode(u16),
+	/// the visitor handed out for ONE member (level FIELD / METHOD / RECORD, or CODE = the code visitor of method #i)
+	/// reports no interest at all, every other visitor of the class reports every interest
+	MemberOff(usize, u16),
+	/// the reverse: every visitor of that level reports no interest, only the one of member #i reports every interest
+	OnlyMember(usize, u16),
 }
 
 impl Dev {
@@ -57,6 +62,11 @@ impl Dev {
 			Dev::DeclineMethod(i) => p.decline_methods.push(i),
 			Dev::DeclineRecord(i) => p.decline_records.push(i),
 			Dev::NoCode(i) => p.no_code.push(i),
+			Dev::MemberOff(l, i) => p.member_masks.push((l as u8, i, Plan::all_mask(l))),
+			Dev::OnlyMember(l, i) => {
+				p.off[l] = Plan::all_mask(l);
+				p.member_masks.push((l as u8, i, 0));
+			},
 		}
 	}
 	fn kind(self) -> &'static str {
@@ -67,6 +77,8 @@ impl Dev {
 			Dev::DeclineMethod(_) => "decline-method",
 			Dev::DeclineRecord(_) => "decline-record-component",
 			Dev::NoCode(_) => "visit_code-none",
+			Dev::MemberOff(l, _) => ["", "one-field-visitor-uninterested", "one-method-visitor-uninterested", "one-code-visitor-uninterested", "one-record-component-visitor-uninterested"][l],
+			Dev::OnlyMember(l, _) => ["", "only-one-field-visitor-interested", "only-one-method-visitor-interested", "only-one-code-visitor-interested", "only-one-record-component-visitor-interested"][l],
 		}
 	}
 }
@@ -167,6 +179,19 @@ fn build_case(label: &str, bytes: Vec<u8>, max_dev: usize) -> Result<ClassCase, 
 	for i in 0..reference.record.as_ref().map_or(0, |r| r.len()) {
 		effective.push(Dev::DeclineRecord(i as u16));
 	}
+	// visitors of one class that answer interests() differently (only where there are at least two of them)
+	let per_member = |level: usize, n: usize, has: &dyn Fn(usize) -> bool, out: &mut Vec<Dev>| {
+		if (0..n).filter(|i| has(*i)).count() >= 2 {
+			for i in (0..n).filter(|i| has(*i)) {
+				out.push(Dev::MemberOff(level, i as u16));
+				out.push(Dev::OnlyMember(level, i as u16));
+			}
+		}
+	};
+	per_member(visitors::FIELD, reference.fields.len(), &|_| true, &mut effective);
+	per_member(visitors::METHOD, reference.methods.len(), &|_| true, &mut effective);
+	per_member(visitors::CODE, reference.methods.len(), &|i| reference.methods[i].code.is_some(), &mut effective);
+	per_member(RECORD, reference.record.as_ref().map_or(0, |r| r.len()), &|_| true, &mut effective);
 	let n = effective.len();
 	effective.extend(rest);
 	if effective.len() >= CORNER_BASE as usize {
@@ -306,7 +331,7 @@ fn check_plan(ctx: &'static Ctx, cnt: &Counters, case: &ClassCase, plan: &Plan, 
 	let mut decisions = 0u64;
 	let mut distinct: Vec<u64> = Vec::new();
 
-	let simple_applies = plan.off[CLASS] == 0 && plan.off[RECORD] == 0 && plan.decline_records.is_empty();
+	let simple_applies = plan.off[CLASS] == 0 && plan.off[RECORD] == 0 && plan.decline_records.is_empty() && !plan.member_masks.iter().any(|(l, _, _)| *l as usize == RECORD);
 	for simple in [false, true] {
 		if simple && !simple_applies {
 			continue;
@@ -359,7 +384,7 @@ fn check_plan(ctx: &'static Ctx, cnt: &Counters, case: &ClassCase, plan: &Plan, 
 				// duke's tree holds one merged list for LocalVariableTable and LocalVariableTypeTable: when that list is empty
 				// it cannot say which of the two attributes was the empty one, so with exactly one of the two interests on a
 				// replay cannot know whether the reader would have met a table of interest. Not charged (information only).
-				let which_empty_table_unknown = plan.on(visitors::CODE, 2) != plan.on(visitors::CODE, 3) && case.full.methods.iter().any(|m| m.code.as_ref().is_some_and(|c| c.empty_local_table));
+				let which_empty_table_unknown = case.full.methods.iter().enumerate().any(|(i, m)| plan.on_m(visitors::CODE, i as u16, 2) != plan.on_m(visitors::CODE, i as u16, 3) && m.code.as_ref().is_some_and(|c| c.empty_local_table));
 				for (k, d) in cfmodel::sdiff::diff(a, b).0 {
 					if which_empty_table_unknown && k.starts_with("method.code.local_variables.empty_table") {
 						j.st.outcome(&format!("{origin}:empty-local-table-of-unknown-kind:not-charged"));
